@@ -16,7 +16,8 @@ CONSTANTS Obj,            \* object -> [id, uid, flat (uid without dashes), arch
           Dev_FalsyParent,      \* F-11a  parent-arch check skipped while the parent has no children
           Dev_ParentSetFirst,   \* F-11c  a refused add has already overwritten variant.parent
           Dev_RecurseDropsArch, \* F-11b  get_variants(recursive) forgets the arch filter
-          Dev_LookupUidFirst    \* F-11d  __getitem__ scans (absolute) UIDs before walking the path
+          Dev_LookupUidFirst,   \* F-11d  __getitem__ scans (absolute) UIDs before walking the path
+          Dev_UidCollision      \* F-11e  a variant whose UID is already used elsewhere in the forest is accepted
 VARIABLES kids,           \* [container -> [key -> object]]  children dictionaries (key = id)
           par,            \* [object -> container or None]   parent back-pointers
           out
@@ -42,9 +43,12 @@ ArchChecked(o, p, k) == p[o] # None /\ (~Dev_FalsyParent \/ DOMAIN k[p[o]] # {})
 ArchOk(o, p, k) == ArchChecked(o, p, k) => Obj[o].arches \subseteq Obj[p[o]].arches
 ValidObj(o, p, k) == Obj[o].arches # {} /\ UidOk(o, p) /\ ArchOk(o, p, k)
 
+RECURSIVE Reach(_, _)
+Reach(c, n) == IF n = 0 THEN {} ELSE Range(kids[c]) \cup UNION {Reach(d, n - 1) : d \in Range(kids[c])}
 AddOk(c, o) ==
   LET p1 == IF c # ROOT THEN [par EXCEPT ![o] = c] ELSE par      \* the parent link the add would create
   IN  /\ ValidObj(o, p1, kids)
+      /\ (Dev_UidCollision \/ \A q \in Reach(ROOT, 4) : Obj[q].uid = Obj[o].uid => q = o)   \* UIDs stay unique in the forest
       /\ (c # ROOT => o \notin Anc(c, p1, N))                     \* not its own ancestor
       /\ (Obj[o].id \in DOMAIN kids[c] => kids[c][Obj[o].id] = o) \* id not taken by another variant
 Add(c, o) ==
